@@ -204,6 +204,79 @@ def run(ck):
         except np.linalg.LinAlgError:
             pass
 
+    # --- the other implementation selected by long-double capability (linalg.py L99-104): on platforms whose long
+    #     double is no wider than double, inv() defers to numpy.linalg.inv and detects singularity by non-finite
+    #     output. The branch is selected the way the repository's own tests do it (module attribute).
+    ncases, nmeta = [], []
+    use_numpy = linalg._USE_NUMPY_LINALG_INV
+    linalg._USE_NUMPY_LINALG_INV = True
+    try:
+        ntodo = [(k, m) for k, m in todo if k != 'singular'][:ck.n(120, 1500)]
+        for t in range(ck.n(40, 400)):
+            n = 1 + rng.randrange(6)
+            m = gen_matrix(rng, 'random', n)
+            kind = ['zero_row', 'dup_row', 'zero_col'][t % 3]
+            if n == 1 or kind == 'zero_row':
+                m[rng.randrange(n)] = [0.0] * n
+            elif kind == 'dup_row':
+                i, j = rng.sample(range(n), 2)
+                m[i] = list(m[j])
+            else:
+                j = rng.randrange(n)
+                for r in m:
+                    r[j] = 0.0
+            ntodo.append(('numpy:' + kind, m))
+        for kind, m in ntodo:
+            n = len(m)
+            A = np.array(m, dtype=float)
+            A0 = A.copy()
+            ck.search_evaluations += 1
+            ck.count('numpy_branch_stream', kind)
+            try:
+                X = linalg.inv(A)
+                raised = False
+            except np.linalg.LinAlgError:
+                X, raised = None, True
+            if A.tobytes() != A0.tobytes():
+                ck.violation({'kind': 'argument-modified', 'call': 'linalg.inv (numpy branch)', 'input': m})
+            if kind.startswith('numpy:'):
+                # structurally singular: LAPACK meets an exactly zero pivot, inv must raise
+                if not raised:
+                    ck.violation({'kind': 'numpy-branch-singular-input-accepted', 'input': m,
+                                  'call': 'linalg._USE_NUMPY_LINALG_INV = True; linalg.inv(A)'})
+                continue
+            singular, rep, swapped = exact_forward(m)
+            if singular:
+                continue
+            if raised:
+                try:
+                    Xn = np.linalg.inv(A)
+                    legit = not np.all(np.isfinite(Xn))
+                except np.linalg.LinAlgError:
+                    legit = True
+                if legit:
+                    ck.discard('numpy branch: numpy.linalg.inv itself gives up on a regular ill-conditioned matrix')
+                else:
+                    ck.violation({'kind': 'numpy-branch-raises-on-regular-matrix', 'input': m,
+                                  'call': 'linalg._USE_NUMPY_LINALG_INV = True; linalg.inv(A)'})
+                continue
+            if not np.all(np.isfinite(X)):
+                ck.violation({'kind': 'non-finite-result', 'call': 'linalg.inv (numpy branch)', 'input': m})
+                continue
+            xs = [[frac(v) for v in r] for r in X]
+            ncases.append('{| c_a := %s; c_raised := false; c_x := %s |}' % (qmat(m), qmat(xs)))
+            nmeta.append((kind, m, X))
+    finally:
+        linalg._USE_NUMPY_LINALG_INV = use_numpy
+    bad = ck.coq_agree('inv_numpy_branch', ['C17Corr'], 'case17', 'agree17', ncases, show='show17', shard=20)
+    for i in bad:
+        kind, m, X = nmeta[i]
+        ck.violation({'kind': 'inv-numpy-branch-disagrees-with-exact-model', 'A': m,
+                      'call': 'linalg._USE_NUMPY_LINALG_INV = True; tweakwcs.linalg.inv(A)',
+                      'impl_X': [[float(v) for v in r] for r in X],
+                      'model (exact inv_gj)': ck.last_shown.get(i, 'n/a'),
+                      'predicate': 'regular => |X - X_exact| and |X*A - I| <= 64 n cond eps'})
+
     # --- fitters on degenerate configurations
     fcases, fmeta = [], []
     for t in range(ck.n(120, 1500)):
